@@ -90,8 +90,9 @@ func (x *Exec) value(st *State, fr *Frame, in ssa.Value, k func(*State)) bool {
 	case *ssa.MakeSlice:
 		ln := x.idx(x.reg(st, fr, v.Len), v.Len.Type())
 		cp := x.idx(x.reg(st, fr, v.Cap), v.Cap.Type())
-		x.oblige(st, "safe", "make", x.and(x.ule(x.idxConst(0), ln), x.ule(ln, cp), x.ule(cp, x.idxBig(Pow2(40)))), "make: 0 <= len <= cap <= 2^40", x.pos(v.Pos()))
-		st.assume(x.and(x.ule(x.idxConst(0), ln), x.ule(ln, cp)))
+		x.oblige(st, "safe", "make", x.and(x.ule(x.idxConst(0), ln), x.ule(ln, cp)), "make: 0 <= len <= cap", x.pos(v.Pos()))
+		st.assume(x.and(x.ule(x.idxConst(0), ln), x.ule(ln, cp), x.ule(cp, x.idxBig(Pow2(48)))))
+		x.E.noteAssumption("allocation: make succeeds for non-negative sizes, and sizes stay below 2^48 (running out of memory is not modelled)")
 		el := v.Type().Underlying().(*types.Slice).Elem()
 		ref := x.allocMem(st, el)
 		st.regs[v] = Val{T: v.Type(), L: []*Term{ref, x.idxConst(0), ln, cp}}
@@ -830,10 +831,19 @@ func (x *Exec) convert(st *State, v Val, to types.Type, where string) Val {
 			return x.bytesToString(st, v, to)
 		}
 		if fromInt {
+			// string(rune): UTF-8 encoding; only the one-byte case is exact, the
+			// others are known to start with a byte >= 0xC0
 			ref := x.allocRef(st)
 			ln := x.E.fresh("runelen", IntS)
 			st.assume(And(Le(IntC(1), ln), Le(ln, IntC(4))))
-			return Val{T: to, L: []*Term{ref, IntC(0), ln}}
+			r := Val{T: to, L: []*Term{ref, IntC(0), ln}}
+			if !x.tc.bv {
+				c := v.Term()
+				b0 := x.strByte(st, r, IntC(0))
+				st.assume(Implies(And(Le(IntC(0), c), Lt(c, IntC(128))), And(Eq(ln, IntC(1)), Eq(b0, c))))
+				st.assume(Implies(Not(And(Le(IntC(0), c), Lt(c, IntC(128)))), And(Ge(ln, IntC(2)), Ge(b0, IntC(0xC0)))))
+			}
+			return r
 		}
 		return Val{T: to, L: v.L}
 	case isString(from):
